@@ -33,6 +33,9 @@ def group_record(g, with_label=True):
             'pka': g.pka_value, 'model_pka': g.model_pka, 'evol': g.energy_volume, 'eloc': g.energy_local,
             'buried': g.buried, 'nvol': g.num_volume, 'charge': g.charge, 'titratable': g.titratable,
             'coupled': len(g.non_covalently_coupled_groups), 'dets': dets,
+            # what the report does with the group: listed or not, discarded because of covalent coupling to which partner type
+            'reported': bool(g.use_in_calculations()) if hasattr(g, 'use_in_calculations') else None,
+            'discarded': (g.coupled_titrating_group.residue_type if getattr(g, 'coupled_titrating_group', None) is not None else None),
             'atom': (g.atom.chain_id, g.atom.res_num, g.atom.icode, g.atom.name, g.atom.res_name)}
 
 
@@ -52,7 +55,7 @@ def close(a, b, tol):
     return a == b
 
 
-def diff_records(r1, r2, tol=1e-9, keys=('pka', 'evol', 'eloc', 'buried', 'nvol', 'type'), dets=True, limit=5):
+def diff_records(r1, r2, tol=1e-9, keys=('pka', 'evol', 'eloc', 'buried', 'nvol', 'type', 'reported', 'discarded'), dets=True, limit=5):
     out = []
     for conf in r1:
         if conf not in r2:
